@@ -1149,9 +1149,11 @@ Proof. vm_compute. reflexivity. Qed.
 Example f0_sorted_any_direction asc g : op_sort O0 f0 [ka; kb] asc = Ok g ->
   Permutation (rows g) (rows f0) /\ sorted_by (less O0 g [ka; kb] asc) (nrows g - 1) = true.
 Proof.
-  intros H. destruct (sort_model_spec O0 f0 [ka; kb] asc g) as [_ [_ [_ [P [S _]]]]]; auto.
-  - vm_compute. reflexivity.
-  - apply sort_cols_okb_spec. vm_compute. reflexivity.
+  intros H.
+  assert (W : wf_frame f0 = true) by (vm_compute; reflexivity).
+  assert (K : sort_cols_okb O0 f0 [ka; kb] = true) by (vm_compute; reflexivity).
+  apply sort_cols_okb_spec in K.
+  destruct (sort_model_spec O0 f0 [ka; kb] asc g W K H) as [_ [_ [_ [P [S _]]]]]. now split.
 Qed.
 
 (* nil after non-nil whatever the direction: row 1 (a = nil) against row 0 (a = 3) *)
